@@ -29,6 +29,10 @@ func checkC19(c *Check) {
 	e := newOrderEngine(p)
 	runOrder(c, "MAP-ORDER", e, func(f *ssa.Function) bool { return c19Scope(p, f) })
 	nondetSources(c, "NONDET-SOURCE", func(f *ssa.Function) bool { return c19Scope(p, f) })
+	// the compiled model is an output too: the order in which imported files are
+	// merged must come from the import walk, never from the order in which the
+	// concurrent fetchers arrive
+	arrivalOrder(c, "ARRIVAL-ORDER")
 	// same model, same output within one process: a generator that returns the
 	// content of a buffer kept in a long-lived view must start from an empty buffer
 	c.Counts["buffer_returning_call_sites"] = freshBuffers(c, "FRESH-BUFFER", func(f *ssa.Function) bool { return c19Scope(p, f) })
@@ -51,7 +55,9 @@ func nondetSources(c *Check, rule string, sel func(*ssa.Function) bool) {
 			full := o.Pkg().Path() + "." + objLocalName(o)
 			switch {
 			case full == "time.Now", full == "time.Since", full == "os.Getpid", full == "os.Hostname",
-				o.Pkg().Path() == "math/rand", o.Pkg().Path() == "crypto/rand", o.Pkg().Path() == "math/rand/v2":
+				full == "os.Getppid", full == "os.Getwd", full == "time.Until", full == "os.Executable",
+				o.Pkg().Path() == "math/rand", o.Pkg().Path() == "crypto/rand", o.Pkg().Path() == "math/rand/v2",
+				o.Pkg().Path() == "hash/maphash": // seeded per process
 				n++
 				c.Flagf(rule, fnName(f)+"|"+full, p.pos(cl.Pos()), "%s is read in generator code: output may differ between runs if it flows to output", full)
 			case full == "google.golang.org/protobuf/proto.Marshal" || full == "github.com/golang/protobuf/proto.Marshal":
